@@ -205,6 +205,15 @@ def k4_display(F, S, s, c):
             return
     # resolve the arguments in MIR
     r = symex.evaluate(F, fn, symex.Policy(F, modular=False))
+    # the text must be written unconditionally: one path, ending in the formatter's own result (no early `return Ok(())`, no `Err`)
+    lv_ = leaves(r["ret"])
+    if len(lv_) != 1 or lv_[0][0]:
+        S.bad("K4", "display-conditional", s, "Display of %s writes its text only on some paths (%d outcomes; first condition %s): the documented text must be produced for every parameter value"
+              % (s, len(lv_), show(lv_[0][0][0][0])[:80] if lv_ and lv_[0][0] else "-"), where)
+        return
+    if isinstance(lv_[0][1], tuple) and lv_[0][1][0] == "adt":
+        S.bad("K4", "display-constant-result", s, "Display of %s returns a constant %s instead of the formatter's result" % (s, show(lv_[0][1])[:60]), where)
+        return
     fa = fmt_args_in_order(r["ret"])
     mapping = flatten_adt(c["ok"], "self", {})
     if len(fa) != nparams:
@@ -241,6 +250,7 @@ def k5_default(F, S, s, c):
 
 
 RULES = [
+    ("K6", "an indicator value is assembled only inside its own `new` (no second, unvalidated constructor)", 1),
     ("K1", "each `new` returns Err(InvalidParameter) iff some usize parameter is 0, Ok otherwise, and branches on nothing else", 22),
     ("K2", "no panic site (MIR Assert / panicking callee) is reachable from any `new`", 22),
     ("K3", "period()/multiplier() return the field initialised from the constructor argument", 20),
@@ -249,7 +259,32 @@ RULES = [
 ]
 
 
+def k6_single_constructor(F, S):
+    """K1/K2 speak about `new`.  Any other function that builds an indicator value itself (a struct aggregate outside `new`,
+    `Default`, `Clone`, serde) would be a second, unvalidated way in: period 0, a window of another length, ..."""
+    inds = set(F.indicators())
+    n = 0
+    for f in F.fns:
+        if f.derived or f.kind == "Closure" and False:
+            continue
+        owner = f.self_struct
+        if f.name == "new" and owner in inds and not f.d.get("impl_trait"):
+            continue
+        if (f.d.get("parent") or "").endswith("::new"):
+            continue  # a closure inside `new`
+        for b in f.blocks:
+            for st in b["stmts"]:
+                rv = st.get("rv") or {}
+                if st["k"] == "assign" and rv.get("k") == "aggregate" and rv.get("agg") == "adt" and not rv.get("is_enum") and short(rv["path"]) in inds:
+                    n += 1
+                    S.bad("K6", "second-constructor", "%s:%s" % (f.label, short(rv["path"])), "%s builds a %s itself: every indicator value must come from its validated `new` (or from Clone / Default / deserialisation of one that did)"
+                          % (f.label, short(rv["path"])), loc(st["span"]))
+    if not n:
+        S.ok("K6", "indicator values are built only in their `new`", indicators=len(inds))
+
+
 def apply(F, S):
+    k6_single_constructor(F, S)
     for s in F.indicators():
         if s not in NAMES:
             # an indicator the property does not name (added later): no documented parameters, Display text or defaults to compare with
